@@ -25,6 +25,7 @@ func runC02(c *Ctx) {
 	c02R2(c)
 	c02R3(c)
 	c02R4(c)
+	c.shared("R6", "C08/R1", "rules keep running for every element: a `next` (or any other way out of a function body) leaves no frame behind, otherwise a long input ends in a spurious `call depth limit exceeded` and the remaining elements and END rules are never reached", keyHas("balance "), func(s *Ctx) { c08R1(s, discoverFrameModel(s.P)) })
 	c.shared("R5", "C14/R2", "the -r selectors reach the interpreter complete and in the order given: multiFlag.Set appends, Run passes the accumulated slice", keyHas("selector"), c14R2)
 }
 
